@@ -78,6 +78,10 @@ func GetObject(rootGoitPath string, hash sha.SHA1) (*Object, error) {
 	}
 
 	objHash := checkSum.Sum(nil)
+	if !sha.SHA1(objHash).Compare(hash) {
+		// the content is not what its name says: damaged, or stored under the wrong name
+		return nil, ErrInvalidObject
+	}
 
 	object := &Object{
 		Type: objType,
